@@ -394,6 +394,20 @@ def gen_paths_2to1(rng):
                  "edge-last": alt[:-1], "edge-both": alt[1:-1]}[pres]
         lines.append("O\t%s\t%s" % (pn, " ".join(items)))
         paths.append({"name": pn, "segs": sitems, "ovs": ovs, "presentation": pres, "nedges": len(eds)})
+    if n >= 2 and rng.random() < 0.3:
+        # an ordered group which walks over a containment: a GFA1 path runs over links only, so this
+        # group has no counterpart (dropped or refused, never written as a path)
+        big, small = sorted(rng.sample(names, 2), key=lambda x: -lens[x])
+        joined = any({f, t} == {big, small} for (f, fo, t, to, ov, eid) in links)
+        if lens[big] > lens[small] and not joined:
+            off = rng.randint(0, lens[big] - lens[small])
+            lb = lens[small]
+            lines.append("\t".join(["E", "ce", big + "+", small + "+", str(off), CV.pos2(off + lb, lens[big]), "0", "%d$" % lb,
+                                    "%dM" % lb]))
+            items = rng.choice([[big + "+", "ce+", small + "+"], ["ce+"], ["ce+", small + "+"], [big + "+", "ce+"]])
+            lines.append("O\tpcont\t%s" % " ".join(items))
+            paths.append({"name": "pcont", "no_counterpart": True, "presentation": "over-containment", "nedges": 1,
+                          "segs": [], "ovs": []})
     if not paths:
         return None
     return lines, paths
@@ -408,13 +422,26 @@ def run_paths_2to1(case, ctx):
         return
     c = call(ctx, "to_gfa1_s", r.value.to_gfa1_s)
     ctx.count("path_conversions_2to1")
+    nocp = [p_ for p_ in case["paths"] if p_.get("no_counterpart")]
     if not c.ok:
+        if nocp and c.kind == "gfapy":
+            ctx.count("groups_over_containments_refused")
+            return          # refused with an error
         ctx.violation("to_gfa1-raises/%s/paths" % c.cls(), "%r: %s" % (lines, str(c.exc)[:300]))
         return
+    if nocp:
+        ctx.count("groups_over_containments_converted")
+        if any(l.startswith("P\tpcont\t") for l in S.split_doc(c.value)):
+            ctx.violation("record-without-counterpart-translated/O-over-containment",
+                          "the group pcont walks over a containment and was written as a GFA1 path\n document %r\n converted %r"
+                          % (lines, S.split_doc(c.value)))
+            return
     out = S.split_doc(c.value)
     recs1 = [S.parse_line(l, "gfa1") for l in out]
     for pth in case["paths"]:
         ctx.add("path_presentations", "%s/%s" % (pth["presentation"], "1" if pth["nedges"] == 1 else "n"))
+        if pth.get("no_counterpart"):
+            continue
         ps = [x for x in recs1 if x.rt == "P" and x.pos[0] == pth["name"]]
         if len(ps) != 1:
             ctx.violation("path-lost/2to1", "%s (%s) in %r; converted %r" % (pth["name"], pth["presentation"], lines, out))
@@ -436,6 +463,58 @@ def run_paths_2to1(case, ctx):
         return
     ctx.nontriv(lines)
     ctx.sample({"version": "gfa2", "lines": lines, "converted": out})
+    if len(repr(lines)) % 2 == 0:
+        replaced_edge_then_converted(ctx, r.value, lines, vlevel)
+
+
+def replaced_edge_then_converted(ctx, g, lines, vlevel):
+    """after a conversion an edge is removed and another alignment of the same two segment ends is
+    added under its name; the conversion of the Gfa must again equal the conversion of a Gfa parsed
+    afresh from what it writes (groups which only imply the edge live on and walk over the new one)."""
+    import random
+    rng = random.Random(len(repr(lines)) * 17 + vlevel)
+    es = [l for l in g.lines if l.record_type == "E" and not l.virtual and isinstance(l.name, str)]
+    if not es:
+        return
+    e = rng.choice(es)
+    f = O.safe_str(e).split("\t")
+    aln = f[8]
+    new = "*" if aln != "*" and rng.random() < 0.4 else CV.swap_id(aln) if CV.swap_id(aln) != aln and "," not in aln else aln
+    if new == aln or new == "*trace*":
+        # the same intervals read with insertions and deletions exchanged are not consistent with the
+        # lengths in general: fall back to an M-only alignment of the reference length
+        new = "*"
+    f[8] = new
+    if f[8] == aln:
+        return
+
+    def edit():
+        g.rm(e.name)
+        g.add_line("\t".join(f))
+    rr = call(ctx, "rm(edge); add_line(other alignment)", edit)
+    if not rr.ok:
+        return
+    ctx.count("conversions_after_edge_replacement")
+    text = [O.safe_str(l) for l in g.lines if not l.virtual]
+    c1 = call(ctx, "to_gfa1_s (edited Gfa)", g.to_gfa1_s)
+    fr = call(ctx, "Gfa(text of the edited Gfa)", gfapy.Gfa, list(text), version="gfa2", vlevel=vlevel)
+    if not fr.ok:
+        return
+    c2 = call(ctx, "to_gfa1_s (fresh parse)", fr.value.to_gfa1_s)
+    if c1.ok != c2.ok:
+        ctx.violation("conversion-depends-on-history/%s-vs-%s/edge-replaced" % (c1.cls(), c2.cls()),
+                      "after replacing %r by %r: the Gfa converts -> %s, a fresh parse of its text -> %s\n text %r"
+                      % (O.safe_str(e), "\t".join(f), c1.cls() if not c1.ok else "ok", c2.cls() if not c2.ok else "ok", text))
+        return
+    if c1.ok:
+        a = sorted(S.split_doc(c1.value))
+        b = sorted(S.split_doc(c2.value))
+        if a != b:
+            ma = [x for x in a if x not in b]
+            mb = [x for x in b if x not in a]
+            ctx.violation("conversion-depends-on-history/%s/edge-replaced" % ((ma or mb)[0][0]),
+                          "after replacing an edge by %r: the edited Gfa gives %r, a fresh parse gives %r\n text %r"
+                          % ("\t".join(f), ma[:3], mb[:3], text))
 
 
 def cases(rng, tier, shard, nshards):
